@@ -1846,53 +1846,140 @@ func addrBase(a ssa.Value) ssa.Value {
 	return a
 }
 
-// NoWriteThrough: fn contains no store whose target memory is reached through a value derived from atoms (e.g. an
-// element of a slice that belongs to a stored object or to a parameter), and no append that may write into its
-// spare capacity.
+// mayAlias: v may share backing storage with a value for which isSource holds. Fresh allocations (make, new,
+// composite literals) and results of unknown calls do not alias; slices, re-slices, phis, append results (first
+// operand) and copies through locals do.
+func mayAlias(v ssa.Value, isSource func(ssa.Value) bool, seen map[ssa.Value]bool) bool {
+	if v == nil || seen[v] || len(seen) > 200 {
+		return false
+	}
+	seen[v] = true
+	if isSource(v) {
+		return true
+	}
+	switch x := v.(type) {
+	case *ssa.Slice:
+		return mayAlias(x.X, isSource, seen)
+	case *ssa.Phi:
+		for _, e := range x.Edges {
+			if mayAlias(e, isSource, seen) {
+				return true
+			}
+		}
+	case *ssa.Call:
+		if CalleeName(&x.Call) == "builtin.append" && len(x.Call.Args) > 0 {
+			return mayAlias(x.Call.Args[0], isSource, seen)
+		}
+	case *ssa.ChangeType:
+		return mayAlias(x.X, isSource, seen)
+	case *ssa.Convert:
+		return mayAlias(x.X, isSource, seen)
+	case *ssa.MakeInterface:
+		return mayAlias(x.X, isSource, seen)
+	case *ssa.UnOp:
+		if x.Op == token.MUL {
+			if a, ok := x.X.(*ssa.Alloc); ok {
+				vals, _ := storesTo(a)
+				for _, sv := range vals {
+					if mayAlias(sv, isSource, seen) {
+						return true
+					}
+				}
+				return false
+			}
+			return mayAlias(x.X, isSource, seen)
+		}
+	case *ssa.IndexAddr:
+		return mayAlias(x.X, isSource, seen)
+	case *ssa.FieldAddr:
+		return mayAlias(x.X, isSource, seen)
+	case *ssa.Field:
+		return mayAlias(x.X, isSource, seen)
+	}
+	return false
+}
+
+// sourcePred builds the "is a shared source" predicate from atoms: "param:<name>" or "field:<T.F>".
+func sourcePred(atoms []string) func(ssa.Value) bool {
+	return func(v ssa.Value) bool {
+		for _, a := range atoms {
+			switch {
+			case strings.HasPrefix(a, "param:"):
+				if p, ok := v.(*ssa.Parameter); ok && p.Name() == a[6:] {
+					return true
+				}
+			case strings.HasPrefix(a, "field:"):
+				switch x := v.(type) {
+				case *ssa.FieldAddr:
+					if nameMatch(fieldName(x.X.Type(), x.Field), a[6:]) {
+						return true
+					}
+				case *ssa.Field:
+					if nameMatch(fieldName(x.X.Type(), x.Field), a[6:]) {
+						return true
+					}
+				}
+			}
+		}
+		return false
+	}
+}
+
+// NoWriteThrough: fn contains no store (or in-place append) into memory that may alias a value designated by atoms
+// ("param:p" / "field:T.F"): no in-place mutation of shared backing storage.
 func (r *Report) NoWriteThrough(key, fnKey string, atoms ...string) {
 	w := r.W
 	fn := w.Fn(fnKey)
-	d := fmt.Sprintf("%s never writes through memory derived from {%s} (no in-place mutation of shared backing storage)", fnKey, strings.Join(atoms, ", "))
+	d := fmt.Sprintf("%s never writes into memory that may alias {%s} (no in-place mutation of shared backing storage)", fnKey, strings.Join(atoms, ", "))
 	k := key + "|" + fnKey + "|" + strings.Join(atoms, ",")
 	if fn == nil {
 		r.Unres(k, d, "function not found")
 		return
 	}
 	w.FuncsAnalysed[fn] = true
+	isSrc := sourcePred(atoms)
 	n := 0
-	fns := append([]*ssa.Function{fn}, fn.AnonFuncs...)
-	for _, f := range fns {
+	for _, f := range append([]*ssa.Function{fn}, fn.AnonFuncs...) {
 		for _, b := range f.Blocks {
 			for _, in := range b.Instrs {
 				switch x := in.(type) {
 				case *ssa.Store:
 					n++
-					base := addrBase(x.Addr)
-					if _, isLocal := base.(*ssa.Alloc); isLocal {
-						continue
-					}
-					if base == x.Addr {
-						continue // store to a plain pointer value (named result / captured var)
-					}
-					if Render(base).Has(atoms...) {
-						r.Bad(k, d, w.posOr(x.Pos(), f), "store through "+clip(Render(base).String(), 160))
-						return
+					switch a := x.Addr.(type) {
+					case *ssa.IndexAddr:
+						if mayAlias(a.X, isSrc, map[ssa.Value]bool{}) {
+							r.Bad(k, d, w.posOr(x.Pos(), f), "element store into "+clip(Render(a.X).String(), 160))
+							return
+						}
+					case *ssa.FieldAddr:
+						// field of an element: &s[i].f
+						if ia, ok := a.X.(*ssa.IndexAddr); ok && mayAlias(ia.X, isSrc, map[ssa.Value]bool{}) {
+							r.Bad(k, d, w.posOr(x.Pos(), f), "element-field store into "+clip(Render(ia.X).String(), 160))
+							return
+						}
 					}
 				case *ssa.Call:
 					if CalleeName(&x.Call) == "builtin.append" && len(x.Call.Args) > 0 {
-						// append(shared[:k], ...) writes into shared's backing array
-						if sl, ok := x.Call.Args[0].(*ssa.Slice); ok {
-							if _, isLocal := addrBase(sl.X).(*ssa.Alloc); !isLocal && Render(sl.X).Has(atoms...) {
-								r.Bad(k, d, w.posOr(x.Pos(), f), "append onto a re-slice of "+clip(Render(sl.X).String(), 160))
-								return
-							}
+						n++
+						// append(shared[:k], ...) overwrites shared's backing array
+						if sl, ok := x.Call.Args[0].(*ssa.Slice); ok && mayAlias(sl.X, isSrc, map[ssa.Value]bool{}) {
+							r.Bad(k, d, w.posOr(x.Pos(), f), "append onto a re-slice of "+clip(Render(sl.X).String(), 160))
+							return
 						}
+					}
+					if n2 := CalleeName(&x.Call); n2 == "builtin.copy" && len(x.Call.Args) > 0 && mayAlias(x.Call.Args[0], isSrc, map[ssa.Value]bool{}) {
+						r.Bad(k, d, w.posOr(x.Pos(), f), "copy into shared storage")
+						return
+					}
+					if n2 := CalleeName(&x.Call); (strings.HasPrefix(n2, "sort.") || strings.HasPrefix(n2, "slices.Sort")) && len(x.Call.Args) > 0 && mayAlias(x.Call.Args[0], isSrc, map[ssa.Value]bool{}) {
+						r.Bad(k, d, w.posOr(x.Pos(), f), "in-place sort of shared storage")
+						return
 					}
 				}
 			}
 		}
 	}
-	r.OK(k, d, w.FnPos(fn), fmt.Sprintf("%d stores examined", n))
+	r.OK(k, d, w.FnPos(fn), fmt.Sprintf("%d stores/appends examined", n))
 }
 
 // EffectSet: the set of callee names matching any of pats, called from functions reachable from fnKey (repo scope),
@@ -2290,6 +2377,15 @@ func (r *Report) FreeVarWriters(key, fnKey, name string, allowed []string) {
 			if x.Addr == ssa.Value(alloc) {
 				if c, ok := x.Val.(*ssa.Const); ok && c.Value == nil {
 					continue // zero initialisation
+				}
+				init := true
+				for a := range Render(x.Val).Atoms() {
+					if strings.HasPrefix(a, "call:") || strings.HasPrefix(a, "param:") || strings.HasPrefix(a, "field:") {
+						init = false
+					}
+				}
+				if init {
+					continue // initialisation with an empty literal
 				}
 				writers[fnKey] = true
 			}
@@ -3119,4 +3215,70 @@ func (r *Report) MustPassWhen(key, fnKey string) {
 	ifs := w.ifs(fn)
 	r.failIsError(key, fn, fnKey, ifs, nilErrOf("Keeper.DeactivateTunnel"))
 	_ = k
+}
+
+// ShuffleShape (C09.R3): GetRandomMembers draws rng.NextUint64() % (n - i), reads memberIdx[draw], overwrites
+// memberIdx[draw] with memberIdx[n-i-1] and appends members[memberIdx-read].
+func (r *Report) ShuffleShape(key, fnKey string) {
+	w := r.W
+	fn := w.Fn(fnKey)
+	d := "partial Fisher-Yates: draw % (n-i); take idx[draw]; idx[draw] = idx[n-i-1]; append members[taken]"
+	k := key + "|" + fnKey
+	if fn == nil {
+		r.Unres(k, d, "function not found")
+		return
+	}
+	w.FuncsAnalysed[fn] = true
+	var rem *ssa.BinOp
+	for _, b := range fn.Blocks {
+		for _, in := range b.Instrs {
+			if bo, ok := in.(*ssa.BinOp); ok && bo.Op == token.REM {
+				rem = bo
+			}
+		}
+	}
+	if rem == nil || !Render(rem.X).Has("^call:Rng.NextUint64") {
+		r.Bad(k, d, w.FnPos(fn), "no `rng.NextUint64() % ...`")
+		return
+	}
+	mod := Render(rem.Y)
+	if !mod.Has("^binop:-", "len", "call:Keeper.GetAvailableMembers", "phi") {
+		r.Bad(k, d, w.posOr(rem.Pos(), fn), "modulus is not (available - i): "+clip(mod.String(), 160))
+		return
+	}
+	// the store memberIdx[draw] = memberIdx[n-i-1]
+	okStore := false
+	for _, b := range fn.Blocks {
+		for _, in := range b.Instrs {
+			st, ok := in.(*ssa.Store)
+			if !ok {
+				continue
+			}
+			ia, ok := st.Addr.(*ssa.IndexAddr)
+			if !ok || seeThrough(ia.Index) != ssa.Value(rem) {
+				continue
+			}
+			v := Render(st.Val)
+			if v.Has("^index", "binop:-", "const:1", "len", "phi") {
+				okStore = true
+			}
+		}
+	}
+	if !okStore {
+		r.Bad(k, d, w.posOr(rem.Pos(), fn), "no `idx[draw] = idx[n-i-1]` swap")
+		return
+	}
+	// appended element is members[idx[draw]]
+	okApp := false
+	for _, c := range Calls(fn, "builtin.append") {
+		t := renderCall(c)
+		if t.Has("call:Keeper.GetAvailableMembers", "binop:%", "call:Rng.NextUint64") {
+			okApp = true
+		}
+	}
+	if !okApp {
+		r.Bad(k, d, w.FnPos(fn), "selected member is not members[idx[draw]]")
+		return
+	}
+	r.OK(k, d, w.Pos(rem.Pos()), "shape matches")
 }
